@@ -4,7 +4,87 @@ import dilworld
 from props import c20 as base
 
 
+STATES = ["WANTING", "CONNECTING", "CONNECTED", "FLUSHING", "LONELY", "ABANDONING", "STOPPING"]
+
+
+def run_steered(c, res):
+    """the connection-hints message reaches the victim's Manager while it is in a chosen state: a dilated pair
+    is driven by the tape (losses of the link noticed by one side first, close()), and the moment a Manager is
+    seen in the target state the decrypted message is handed to Manager.received_dilation_message, the entry
+    point the property names; the run then continues to quiescence"""
+    import json
+    from wormhole.errors import WormholeError
+    hints = [h for h in c["hints"] if isinstance(h, dict)]
+    classes, nvalid = base.classify(hints)
+    target = c["dil_state"]
+    P = dict(tape=c.get("tape", b""), ops=[["listen", 0, "p"], ["listen", 1, "p"], ["open", 0, "p"], ["write", [0, 0], "o", 300]],
+             kills=0, settle_time=20.0, max_reconnects=8, dilate_at=["start", "start"])
+    if target == "WANTING":
+        P["dilate_at"] = ["start", "tape"]
+    if target in ("FLUSHING", "LONELY", "ABANDONING"):
+        P.update(kills=0, kill_notify={"FLUSHING": "leader", "ABANDONING": "leader", "LONELY": "follower"}[target])
+    if target == "CONNECTING" :
+        P["no_listen"] = [True, True]
+    case = dilworld.DilCase(P)
+    case.setup()
+    hit = []
+    payload = json.dumps({"type": "connection-hints", "hints": hints}).encode()
+
+    steer = []
+
+    def after(cs):
+        if hit:
+            return
+        if not steer and target in ("FLUSHING", "LONELY", "ABANDONING", "STOPPING"):
+            ms_ = cs.managers()
+            if all(m is not None and cs.state_name(m) == "CONNECTED" for m in ms_):
+                if target == "STOPPING":
+                    steer.append("close")
+                    cs.remaining_intents = [it for it in getattr(cs, "remaining_intents", []) if it[0] != "wclose"]
+                    cs._do_intent(["wclose", cs.tape.below(2) if not cs.tape.exhausted() else 0])
+                else:
+                    links = [l for l in cs.selected_links() if not l.a.broken]
+                    if links:
+                        steer.append("kill")
+                        cs.do_kill(links[0])
+        for i, m in enumerate(cs.managers()):
+            if m is not None and cs.state_name(m) == target:
+                hit.append(i)
+                try:
+                    m.received_dilation_message(payload)
+                except Exception as ex:
+                    res.violate("no-raise", "Manager.received_dilation_message raised %r for connection-hints %s while "
+                                "the Manager was %s" % (ex, base._canon(hints), target),
+                                input_class="dilation-hints-raise-in-%s:%s" % (target, type(ex).__name__),
+                                exc=type(ex).__name__)
+                if cs.state_name(m) != target:
+                    res.violate("no-abort", "connection-hints %s moved the Manager from %s to %s" % (
+                        base._canon(hints), target, cs.state_name(m)), input_class="dilation-manager-derailed-in-%s" % target)
+                return
+    try:
+        case.install_traces()
+        case.run(after_step=after)
+        case.flush_intents(after_step=after)
+        case.settles.append(case.settle(after_step=after))
+        res.notes["steered_%s_%s" % (target, "hit" if hit else "not-reached")] += 1
+        for (exc, frame, msg) in case.W.error_summaries():
+            res.notes["dilation_logged_error:%s@%s" % (exc, frame)] += 1
+        case.close_all()
+        for i in range(2):
+            for r in case.close_results[i]:
+                v = getattr(r, "value", r)
+                if hit and not (isinstance(v, str) or isinstance(v, WormholeError)):
+                    res.violate("no-abort", "after connection-hints %s arrived in state %s the wormhole of side %d closed "
+                                "with %r" % (base._canon(hints), target, i, v),
+                                input_class="dilation-wormhole-errored-in-%s" % target, exc=type(v).__name__)
+    finally:
+        case.finish()
+    return bool(hit)
+
+
 def run(c, res):
+    if c.get("dil_state"):
+        return run_steered(c, res)
     hints = [h for h in c["hints"] if isinstance(h, dict)]
     classes, nvalid = base.classify(hints)
     # nobody listens and there is no relay: both Managers stay in CONNECTING, where hints are used
